@@ -27,6 +27,11 @@ type c01Vol struct {
 	RO    bool   `json:"ro"`
 	State string `json:"state"` // absent | intact | <corruption kind>
 	Pos   int    `json:"pos,omitempty"`
+	// write fault of a writable volume: "" | full (the volume carries a fresh
+	// "full" marker, WriteBlock gives up at once) | nodir (the block's
+	// directory cannot be created: a regular file is in the way; only with
+	// state absent)
+	Fault string `json:"write_fault,omitempty"`
 }
 
 type c01Case struct {
@@ -202,6 +207,12 @@ func TestVerifC01(t *testing.T) {
 					cv.State = "absent"
 				}
 			}
+			if !cv.RO && rng.Chance(1, 8) {
+				cv.Fault = "full"
+				if cv.State == "absent" && rng.Bool() {
+					cv.Fault = "nodir"
+				}
+			}
 			c.Vols = append(c.Vols, cv)
 		}
 		run.Input(c, false)
@@ -218,6 +229,14 @@ func TestVerifC01(t *testing.T) {
 			if c.Vols[v].State != "absent" {
 				vkPlant(t, root, h, stored[v], old)
 			}
+			switch c.Vols[v].Fault {
+			case "full":
+				os.Symlink(strconv.FormatInt(time.Now().Unix(), 10), root+"/full")
+				run.Count("volumes_marked_full", 1)
+			case "nodir":
+				ioutil.WriteFile(root+"/"+h[:3], []byte("in the way"), 0644)
+				run.Count("volumes_with_blocked_blockdir", 1)
+			}
 			if c.Vols[v].State == "intact" {
 				anyIntact = true
 			} else if c.Vols[v].State != "absent" {
@@ -230,7 +249,7 @@ func TestVerifC01(t *testing.T) {
 			if c.Vols[v].RO {
 				ro = "ro"
 			}
-			feat = append(feat, ro+":"+c.Vols[v].State)
+			feat = append(feat, ro+":"+c.Vols[v].State+c.Vols[v].Fault)
 		}
 		defer os.RemoveAll(dir)
 		cluster := vkCluster(t)
@@ -357,6 +376,17 @@ func TestVerifC01(t *testing.T) {
 		}
 	})
 	c01Concurrent(t, run, hs, base)
+
+	// two overlapping PUTs of one block, the second one cancelled (shared with
+	// C02): "once it is acknowledged an intact copy is retrievable"
+	var ovMu sync.Mutex
+	ovNo := 0
+	c02Overlap(t, run, hs, func() string {
+		ovNo++
+		d := fmt.Sprintf("%s/ov%d", base, ovNo)
+		os.MkdirAll(d, 0755)
+		return d
+	}, &ovMu, "C01")
 }
 
 // c01Concurrent: the same G1/P2 clauses under concurrency. Several clients GET,
@@ -384,7 +414,11 @@ func vkConcurrent(t *testing.T, run *verifkit.Run, hs *vkHTTP, base string, prop
 		}
 		defer os.RemoveAll(dir)
 		nblocks := rng.Range(3, 6)
-		size := rng.PickInt(64, 1000, 4096, 70000)
+		size := rng.PickInt(64, 1000, 4096, 70000, 3<<20)
+		opsPerClient := 25
+		if size > 1<<20 {
+			opsPerClient = 8
+		}
 		var blocks [][]byte
 		var hashes []string
 		for b := 0; b < nblocks; b++ {
@@ -428,9 +462,22 @@ func vkConcurrent(t *testing.T, run *verifkit.Run, hs *vkHTTP, base string, prop
 			wg.Add(1)
 			go func() {
 				defer wg.Done()
-				for k := 0; k < 25; k++ {
+				for k := 0; k < opsPerClient; k++ {
 					b := crng.Intn(nblocks)
-					switch crng.Intn(4) {
+					switch crng.Intn(5) {
+					case 4:
+						// a complete upload whose client hangs up without waiting for
+						// the answer: the handler sees a disconnect while it may be in
+						// the middle of writing the block
+						if conn, err := net.DialTimeout("tcp", addr, 5*time.Second); err == nil {
+							fmt.Fprintf(conn, "PUT /%s HTTP/1.1\r\nHost: x\r\nAuthorization: OAuth2 %s\r\nContent-Length: %d\r\n\r\n", hashes[b], vkRootToken, len(blocks[b]))
+							conn.Write(blocks[b])
+							if crng.Bool() {
+								time.Sleep(time.Duration(crng.Intn(3000)) * time.Microsecond)
+							}
+							conn.Close()
+							run.Count("conc_hangup_puts", 1)
+						}
 					case 0:
 						r := hs.Do("PUT", "/"+hashes[b], blocks[b], vkRootToken)
 						run.Eval(1)
